@@ -22,6 +22,18 @@ package price
 //@   ensures (result.1 == nil) <==> (c in np)
 //@   ensures result.1 == nil ==> result.0 == mult(a, np[c])
 //
+// Create: the model price carries exactly the declared number (no rounding at this point: the only
+// truncation of the property is that of products and reciprocals) and the two named commodities.
+//@ func Create
+//@   requires reg != nil && wfCommodities(reg.commodities) && p != nil
+//@   requires inText(p.Date.Range) && inText(p.Commodity.Range) && inText(p.Price.Range) && inText(p.Target.Range)
+//@   modifies reg.commodities.index[*]
+//@   ensures wfCommodities(reg.commodities)
+//@   ensures [C12] [C03] @declared: result.1 == nil ==> result.0 != nil && fresh(result.0) && result.0.Src == p
+//@        && result.0.Price == decOf(p.Price.Text[p.Price.Start:p.Price.End])
+//@        && result.0.Commodity != nil && result.0.Commodity.name == p.Commodity.Text[p.Commodity.Start:p.Commodity.End]
+//@        && result.0.Target != nil && result.0.Target.name == p.Target.Text[p.Target.Start:p.Target.End]
+//
 // Insert: a zero price is rejected and nothing changes; otherwise exactly the two entries of the pair
 // are (over)written: the price, and its reciprocal truncated to 8 decimals.
 //@ def wfPrices(ps Prices) bool := ps != nil
